@@ -109,6 +109,9 @@ type c04Conn struct {
 }
 
 func (c *c04Conn) RemotePeer() peer.ID { return c.pid }
+func (c *c04Conn) Stat() network.ConnStats {
+	return network.ConnStats{Stats: network.Stats{Direction: network.DirInbound}}
+}
 
 type c04Stream struct {
 	network.Stream
